@@ -178,7 +178,7 @@ Section stream.
       rewrite Hen. cbn [negb].
       pose proof (exit_cond_plain 0 gd ms sh s w a t0 r d t1 dd Hfc) as EC. fold c in EC. fold top1 in EC.
       rewrite EC by lia.
-      assert (E0 : (0 <? t1 - t0) = true) by (apply N.ltb_lt; lia). rewrite E0. cbn [orb]. reflexivity.
+      assert (E0 : (0 <=? t1 - t0) = true) by (apply N.leb_le; lia). rewrite E0. cbn [orb]. reflexivity.
   Qed.
   Lemma take_eq_gen t0 t1 rs ds : t0 <> t1 -> Forall (fun e => e_time e = t0) rs -> Forall (fun e => e_time e = t1) ds ->
     take_eq t0 (rs ++ ds) = rs /\ filter (fun e => e_time e =? t1) (rs ++ ds) = ds.
@@ -449,7 +449,7 @@ Section stream.
     assert (Hr : ridx s = d + 1) by (rewrite Iri, of_nat_S; reflexivity).
     pose proof (leave_in 0 gd ms sh s w a t0 d d t anc (N.of_nat (S n)) Ist Ifc Ien Hr) as LI. fold c in LI.
     rewrite LI by lia. clear LI.
-    assert (E0 : (0 <? t - t0) = true) by (apply N.ltb_lt; lia). rewrite E0. cbn [orb].
+    assert (E0 : (0 <=? t - t0) = true) by (apply N.leb_le; lia). rewrite E0. cbn [orb].
     destruct (s_leave_rec s X w a t0 o0 d d t o anc (mkxs stk) (N.of_nat (S n)) Ist Ixs Ifc Ien) as (x1 & Hev & XL);
       [lia|lia|exact Hasz|].
     rewrite XL. clear XL. rewrite Hlen. fold d.
